@@ -18,6 +18,11 @@ pub fn cfg_from_context(c: &Value) -> WorldCfg {
     cfg.lazy_fees = c["lazy_fees"].as_bool().unwrap_or(false);
     cfg.api_access = c["api_access"].as_bool().unwrap_or(true);
     cfg.disable_if_not_synced = c["disable_if_not_synced"].as_bool().unwrap_or(false);
+    cfg.syncing = c["syncing"].as_bool().unwrap_or(true);
+    cfg.exotic = c["exotic"].as_bool().unwrap_or(false);
+    if cfg.exotic {
+        cfg.fees = Some(ic_btc_interface::Fees::testnet());
+    }
     cfg
 }
 
@@ -47,6 +52,7 @@ pub const BODY_MULTI: u8 = 7;
 pub const BODY_FEE_SEGWIT: u8 = 8;
 pub const BODY_FEE_PAIR: u8 = 9;
 pub const BODY_FEE_ZERO: u8 = 10;
+pub const BODY_ZEROS: u8 = 11;
 
 pub fn body_name(b: u8) -> &'static str {
     match b {
@@ -61,6 +67,7 @@ pub fn body_name(b: u8) -> &'static str {
         BODY_FEE_SEGWIT => "coinbase 3xA + segwit spend of oldest A output paying fee 1000",
         BODY_FEE_PAIR => "coinbase A + legacy spend (fee 7) + segwit spend (fee 250000)",
         BODY_FEE_ZERO => "coinbase A + spend with fee 0",
+        BODY_ZEROS => "coinbase with five outputs to A, the 1st, 3rd and 5th of value 0",
         _ => "?",
     }
 }
@@ -209,6 +216,16 @@ pub fn build_body(w: &World, parent: &H32, body: u8, id: usize) -> Option<Vec<Tr
             }
             Some(txs)
         }
+        BODY_ZEROS => Some(vec![coinbase_tx(
+            salt,
+            vec![
+                (0, book.script(A)),
+                (val, book.script(A)),
+                (0, book.script(A)),
+                (val + 1, book.script(A)),
+                (0, book.script(A)),
+            ],
+        )]),
         BODY_FEE_ZERO => {
             let src = of(book.script(A).as_bytes());
             let mut txs = vec![cb_a()];
@@ -333,6 +350,7 @@ pub fn apply_ev(w: &mut World, ev: &Ev) -> Applied {
                     },
                     height: base_h + 1 + k as u32,
                     header: *h,
+                    block: if k == 0 { Some(first.clone()) } else { None },
                 });
             }
             Applied::HeadersAnnounced
@@ -655,6 +673,8 @@ impl<O: Oracle> Model for ChainModel<O> {
             "lazy_fees": self.cfg.lazy_fees,
             "api_access": self.cfg.api_access,
             "disable_if_not_synced": self.cfg.disable_if_not_synced,
+            "syncing": self.cfg.syncing,
+            "exotic": self.cfg.exotic,
             "oracle": self.oracle.params(),
         })
     }
